@@ -6,6 +6,41 @@ STREAM_SCHEDS = ["reply-first", "cancel-before-write", "deadline-before-write", 
                  "retry-after-write-error", "cancel-before-write-overlap"]
 PIPE_SCHEDS = ["reply", "dup-reply", "late-reply"]
 DOH_SCHEDS = ["reply-first", "cancel-during-dial", "deadline-during-dial", "cancel-during-dial-overlap", "cancel-during-read"]
+# round 4: fault paths (stream reads that end inside a frame, a failing TCP leg of the UDP fallback), the hand-over of the
+# reply against the caller's cancellation, header-only replies; replayed with the buffer hook AND the object hook on
+RDFAULT_SCHEDS = ["complete", "eof-before-frame", "short-prefix", "short-body", "reset-mid-body", "short-body-overlap"]
+LISTEN_SCHEDS = ["short-body", "reset-mid-body", "short-prefix", "eof-before-frame"]
+FALLBACK_SCHEDS = ["plain", "tc-tcp-ok", "tc-tcp-close", "tc-tcp-refused", "tc-tcp-short", "tc-tcp-garbage",
+                   "tc-tcp-close-overlap", "udp-timeout"]
+HANDOVER_SCHEDS = ["reply-no-cancel", "cancel-after-reply", "deadline-after-reply", "cancel-before-reply"]
+EMPTYRESP_SCHEDS = ["no-rd", "opcode", "qr-set", "qdcount2", "qdcount0", "refused", "reject", "servfail"]
+
+
+def fault_cases(rng, reps, start, race=False):
+    out = []
+    n = start
+    tail = " race=1" if race else ""
+
+    def add(txt):
+        nonlocal n
+        out.append("%s%d %s mode=poison seed=%d%s" % ("r" if race else "f", n, txt, rng.randrange(1 << 30), tail))
+        n += 1
+    for rep in range(reps):
+        for tr in ("reuse", "pipeline", "quic"):
+            for sched in RDFAULT_SCHEDS:
+                add("sc=rdfault tr=%s sched=%s" % (tr, sched))
+        for sched in FALLBACK_SCHEDS:
+            add("sc=fallback sched=%s" % sched)
+        for sched in HANDOVER_SCHEDS:
+            add("sc=handover sched=%s" % sched)
+    # the scenarios that start the in-process router: once per schedule (each runs every listener twice)
+    for sched in LISTEN_SCHEDS:
+        add("sc=listen sched=%s" % sched)
+    for sched in EMPTYRESP_SCHEDS:
+        add("sc=emptyresp sched=%s" % sched)
+    for sched in ("hit-last-quarter", "hit-last-quarter", "hit-fresh"):
+        add("sc=prefetch sched=%s" % sched)
+    return out
 
 
 def ownership_gen(rng, tier):
@@ -38,7 +73,11 @@ def ownership_gen(rng, tier):
                 for mode in modes:
                     out.append("o%d sc=%s sched=%s mode=%s seed=%d" % (n, sc, sched, mode, rng.randrange(1 << 30)))
                     n += 1
+    out += fault_cases(rng, budget(tier, 2, 12), n)
+    n = len(out)
     if tier == "thorough":
+        out += fault_cases(rng, 2, n, race=True)
+        n = len(out)
         for sc in ("doh", "doh2"):
             for sched in DOH_SCHEDS:
                 out.append("r%d sc=%s sched=%s mode=poison seed=%d race=1" % (n, sc, sched, rng.randrange(1 << 30)))
@@ -72,8 +111,21 @@ def ownership_oracle(line, res):
     if any(w in ("poison", "foreign", "other") for w in wires):
         why.append("octets sent to the upstream are not the caller's own query (wire=%s): "
                    "a buffer was used after its release" % r.get("wire"))
-    if "damaged-reply" in r.get("ret", ""):
+    ret = r.get("ret", "")
+    if "damaged-reply" in ret:
         why.append("a delivered reply message was released/recycled while the caller still used it")
+    if "returned-released" in ret or "nil-nil" in ret:
+        why.append("an exchange returned (with a nil error) a message that had already been released")
+    if "released-while-held" in ret:
+        why.append("a message was released by somebody else while its owner (the caller it was returned to) held it")
+    if "same-object-twice" in ret:
+        why.append("one message object was handed to two owners")
+    if "up:foreign-question" in ret:
+        why.append("the upstream was asked a question no client asked (a question read after its release, or another "
+                   "request's question): " + ",".join(t for t in ret.split(",") if t.startswith("up:foreign")))
+    if any(t.endswith((":poison", ":bad-response", ":undecodable")) for t in ret.split(",")):
+        why.append("a client of the router received poison / a response that is not the answer to its own query (%s)"
+                   % ",".join(t for t in ret.split(",") if t.endswith((":poison", ":bad-response", ":undecodable"))))
     if r.get("ev", "-") != "-":
         why.append("pool hook events: " + r["ev"])
     rr = _race_reason(r)
@@ -93,6 +145,10 @@ def ownership_compare(ir, mr):
 
 def ownership_classify(line, res):
     f = gens.fields(line)
+    if "tr" in f:
+        return "%s-%s/%s/%s/%s" % (f.get("sc"), f.get("tr"), f.get("sched"), f.get("mode"), gens.fields(res).get("viol", "?"))
+    if f.get("sc") in ("listen", "fallback", "handover", "emptyresp", "prefetch"):
+        return "%s/%s/%s/%s" % (f.get("sc"), f.get("sched"), f.get("mode"), gens.fields(res).get("viol", "?"))
     return "%s/%s/%s/%s" % (f.get("sc"), f.get("sched"), f.get("mode"), gens.fields(res).get("wire", "?"))
 
 
@@ -121,7 +177,7 @@ def ownload_oracle(line, res):
                    ("badans", "responses whose answer is not the keyed function of their own question (or not the question asked)"),
                    ("upoison", "upstream-visible queries containing poison"),
                    ("uforeign", "upstream-visible queries that are no question of the vocabulary"),
-                   ("tbad", "direct transport exchanges that returned another exchange's reply")):
+                   ("tbad", "direct transport exchanges that returned another exchange's reply or an already released message")):
         if r.get(k, "0") != "0":
             why.append("%s %s" % (r[k], txt))
     if r.get("ev", "-") != "-":
@@ -164,6 +220,55 @@ def c20_decode_oracle(line, res):
     return None
 
 
+def owndecode_gen(rng, tier):
+    """the decoder's release discipline, both hooks on: valid messages, messages whose RDLENGTH lies (every record type
+    with names in its RDATA), messages cut at every offset, mutated messages"""
+    import struct
+    out = []
+    n = [0]
+
+    def add(tag, b):
+        out.append("%s%d msg=%s" % (tag, n[0], gens.hx(b)))
+        n[0] += 1
+    # catalogue: one record of each type, RDLENGTH off by -1 / +1 / +2, and the message cut at every offset
+    for typ in (gens.T_A, gens.T_AAAA, gens.T_NS, gens.T_CNAME, gens.T_PTR, gens.T_MX, gens.T_SOA, gens.T_SRV, gens.T_TXT,
+                gens.T_OPT, 99):
+        for lie in (0, -1, 1, 2):
+            e = gens.Enc(rng, 0.0)
+            pool = gens.NamePool(rng)
+            e.u16(rng.randrange(65536)); e.u16(0x8180); e.u16(1); e.u16(2); e.u16(0); e.u16(0)
+            e.name(pool.pick()); e.u16(typ); e.u16(1)
+            gens.put_rr(e, rng, pool, typ=typ, rdlen_lie=lie)
+            gens.put_rr(e, rng, pool, typ=typ)
+            b = bytes(e.b)
+            add("cat", b)
+            if lie == 0:
+                step = 1 if tier == "thorough" else 3
+                for cut in range(12, len(b), step):
+                    add("cut", b[:cut])
+    for i in range(budget(tier, 250, 8000)):
+        add("v", gens.gen_msg(rng, max_rr=rng.choice([4, 8])))
+    for i in range(budget(tier, 400, 12000)):
+        add("l", gens.gen_msg(rng, rdlen_lie=True, max_rr=rng.choice([2, 4, 8])))
+    for i in range(budget(tier, 400, 12000)):
+        add("m", gens.mutate(rng, gens.gen_msg(rng, rdlen_lie=rng.random() < 0.3, max_rr=4)))
+    return out
+
+
+def owndecode_oracle(line, res):
+    if res.startswith("PANIC!") or res.startswith("HANG") or res == "CRASH":
+        return "decoder did not return: " + res[:60]
+    if res.startswith("ev=") and not res.startswith("ev=- "):
+        return "hook events while decoding / releasing: " + res.split(" ")[0][3:]
+    if "aaaaaaaa" in res and "aaaaaaaa" not in line:
+        return "decoded message contains the 0xAA pattern written into the receive buffer after decoding (aliasing)"
+    return None
+
+
+def owndecode_compare(ir, mr):
+    return ir.startswith("ev=") and ir.split(" ", 1)[1:] == [mr]
+
+
 PROPS["C20"] = dict(
     race=True,
     kinds=[
@@ -173,17 +278,35 @@ PROPS["C20"] = dict(
              classify=lambda l, r: "load/" + gens.fields(r).get("viol", "?"), nontrivial=ownload_nontrivial, timeout=2400),
         dict(name="decode", gen=c20_decode_gen, oracle=c20_decode_oracle,
              classify=lambda l, r: "decode/" + r.split(" ")[0][:8], nontrivial=lambda l, r: r.startswith("OK"), timeout=900),
+        dict(name="owndecode", gen=owndecode_gen, oracle=owndecode_oracle, compare=owndecode_compare,
+             classify=lambda l, r: "owndecode/" + l[:1] + "/" + (r.split(" ") + ["?", "?"])[1][:3],
+             nontrivial=lambda l, r: r.startswith("ev="), timeout=900),
     ],
     rule="ownership: every (transport, release/use ordering) pair replayed deterministically against gated fake peers "
          "(reuse, QUIC, pipeline: gated Write; DoH over HTTP/1.1 and HTTP/2-TLS: gated dialer, the fake server records the "
          "request target it receives) "
          "with the pool's poison/quarantine hook on (and, for the D14 orderings, also with the hook off and one P, a second "
          "request recycling the array); compared with the verdict of the ownership LTS for the same schedule; "
+         "round 4 (buffer hook AND the object hook of internal/dnsmsg on; the harness is the owner of every message it is "
+         "given: never reported released while held, released exactly once): rdfault = a reply frame that ends inside the "
+         "frame (EOF / reset after the prefix and fewer octets than announced, half a prefix, before the prefix) on the "
+         "reuse / pipeline / QUIC transports; listen = the same from clients of the tcp / tls / quic / gnet listeners of the "
+         "in-process router; fallback = udp upstream with a truncated reply and a failing TCP leg (closed, refused, short "
+         "frame, garbage); handover = the caller's context ends right after it received the reply while the worker is "
+         "parked in its epilogue (contention on the transport mutex); emptyresp = header-only replies: not-implemented queries "
+         "(RD clear, opcode, QR set, QDCOUNT 0/2), no matching rule (REFUSED), a rejecting rule, a failing upstream (SERVFAIL) "
+         "through every listener, each followed by ordinary queries; prefetch = cache hits in the last quarter of the entry's "
+         "life (entry placed with chosen instants) through every listener: every query the upstream sees must be a question a "
+         "client asked; "
          "ownload: concurrent end-to-end load through the in-process router (udp/tcp/gnet/http/fasthttp listeners, "
-         "udp-pipeline + tcp-reuse + tcp-pipeline transports, small cache, hanging-up clients) followed by direct "
+         "udp-pipeline(+tcp fallback) + tcp-reuse + tcp-pipeline transports, small cache, hanging-up clients, clients whose "
+         "frame ends early, not-implemented queries, upstreams that truncate over UDP and end TCP frames early) followed by direct "
          "transport exchanges with tiny and already-expired deadlines, hook on; oracle = no poison in any client-visible "
-         "response or upstream-visible query, keyed answers, zero hook events; decode: decoded dump taken after the input "
-         "buffer was overwritten and released, compared with the model's decode. distinct = distinct case line; "
+         "response or upstream-visible query, keyed answers, zero hook events (buffers: double / foreign release, write after "
+         "release; objects: double release, write after release, one object handed out twice), no exchange returning a "
+         "released message; decode: decoded dump taken after the input "
+         "buffer was overwritten and released, compared with the model's decode; owndecode: valid, RDLENGTH-lying, cut and "
+         "mutated messages decoded and released with both hooks on (zero events; result compared with the model's decode). distinct = distinct case line; "
          "non-trivial = the scenario ran to a verdict (ownership), > 500 checked responses and > 500 checked direct "
          "exchanges (ownload), accepted message (decode). thorough: the same under -race (build/implrun-race); any DATA "
          "RACE report is a violation.",
@@ -191,13 +314,14 @@ PROPS["C20"] = dict(
                  "QUIC stream keeps quic-go's contract that nothing reads Write's argument after CancelWrite returned",
                  "Go's mutexes, channels and sync.Pool are atomic and sequentially consistent for properly synchronised "
                  "programs (Go memory model)"],
-    trusted=["C20: the poison hook and the race detector only SEARCH for a failing schedule of the real code; the theorems "
+    trusted=["C20: the poison hook, the object ownership hook and the race detector only SEARCH for a failing schedule of the real code; the theorems "
              "cover the ownership protocols as modelled in coq/Own/Ownership.v (hand-written from the Go code, one "
              "instruction per atomic action)"],
     level_note="Partial: data-race freedom of arbitrary Go code is a runtime property. Proved (axiom-free, all interleavings "
                "of any length, adversarial recycling environment): no use after release, single owner, no double/foreign "
                "release, no foreign cache data for the modelled protocols (UDP/TCP/HTTP/gnet handlers, pipeline, reuse after "
-               "the D14 fix, QUIC, cache entry recycling); gnet fallback linked to C09_pack_total; D14 refuted on the pinned "
-               "protocol. Tied to the code by deterministic replays of the modelled orderings and by sampling real schedules "
+               "the D14 fix, QUIC, cache entry recycling; stream reader with failing reads, UDP->TCP fallback with failing "
+               "legs, reply hand-over vs cancellation, header-only replies with their pooled Question objects); gnet fallback "
+               "linked to C09_pack_total; D14 and the four round-4 variants refuted by explicit schedules. Tied to the code by deterministic replays of the modelled orderings and by sampling real schedules "
                "(poison/quarantine hook; race detector in the thorough tier).",
 )
